@@ -136,6 +136,7 @@ def FCH(s, n, x):
 
 
 def fch_def(s, n, x):
+    x = _sx(x)
     j = z3.Int("fh_j")
     r = FCH(s, n, x)
     fi = _FCI(*s.cs, s.arr("F:_name"), n, x)
